@@ -117,7 +117,8 @@ func (f *Formatter) Format(vcl *ast.VCL) io.Reader {
 	}
 	buf.WriteString("\n")
 
-	return bytes.NewReader(buf.Bytes())
+	// Never start the output with empty lines: formatting the output again would drop them
+	return bytes.NewReader(bytes.TrimLeft(buf.Bytes(), "\n"))
 }
 
 // Calculate and crate ident strings from config (shorthand, without passing config)
